@@ -100,7 +100,8 @@ pub struct GenCfg {
     pub max_sets: usize,
     pub max_routes_per_as: usize,
     /// 1-4 filter-sets, some of which hold constructs the evaluator cannot evaluate (PeerAS, AS-path
-    /// regular expression, attribute match) or a literal prefix list of 300-1200 entries (5-20 KB of object text)
+    /// regular expression, attribute match) or a literal prefix list of 300-1200 entries (5-20 KB of object text);
+    /// route-sets may have members that are not prefixes (AS numbers, as-set names)
     pub rich_filter_sets: bool,
 }
 
@@ -174,7 +175,11 @@ pub fn gen_db(ctx: &mut Ctx, cfg: &GenCfg) -> Db {
     for name in &rs_names {
         let mut members = Vec::new();
         for _ in 0..ctx.pick(5) {
-            if ctx.chance(1, 4) {
+            if cfg.rich_filter_sets && ctx.chance(1, 5) {
+                // RFC 2622 section 5.2: a route-set member may also be an AS number or an as-set name; the
+                // client asks for prefixes, cannot parse such a member and skips it
+                members.push((*ctx.tape.choose(&["AS64500", "AS-SET0", "AS64501^+"])).to_string());
+            } else if ctx.chance(1, 4) {
                 members.push(ctx.tape.choose(&rs_names).clone());
             } else if ctx.pick(2) == 0 {
                 members.push(v4_prefix(ctx));
